@@ -340,26 +340,34 @@ func sliceLeaves(env *core.Env, v ssa.Value, depth int) map[string]bool {
 			walk(x.X, d)
 		case *ssa.Alloc:
 			out["alloc:"+x.Comment] = true
-			for _, ref := range *x.Referrers() {
-				switch r := ref.(type) {
-				case *ssa.Store:
-					if r.Addr == x {
-						walk(r.Val, d)
-					}
-				case *ssa.IndexAddr:
-					for _, rr := range *r.Referrers() {
-						if st, ok := rr.(*ssa.Store); ok && st.Addr == r {
-							walk(st.Val, d)
+			// values stored into the allocation, directly or through element/field addresses
+			var stores func(addr ssa.Value, depth int)
+			stores = func(addr ssa.Value, depth int) {
+				if depth > 4 {
+					return
+				}
+				refs := addr.Referrers()
+				if refs == nil {
+					return
+				}
+				for _, ref := range *refs {
+					switch r := ref.(type) {
+					case *ssa.Store:
+						if r.Addr == addr {
+							walk(r.Val, d)
 						}
-					}
-				case *ssa.FieldAddr:
-					for _, rr := range *r.Referrers() {
-						if st, ok := rr.(*ssa.Store); ok && st.Addr == r {
-							walk(st.Val, d)
+					case *ssa.IndexAddr:
+						if r.X == addr {
+							stores(r, depth+1)
+						}
+					case *ssa.FieldAddr:
+						if r.X == addr {
+							stores(r, depth+1)
 						}
 					}
 				}
 			}
+			stores(x, 0)
 		case *ssa.Call:
 			name := core.CalleeName(&x.Call)
 			out["call:"+name] = true
